@@ -32,10 +32,30 @@ def build_evse(sid, e):
     raise ValueError(e)
 
 
+class LoggingBattery(sut.Battery):
+    """User extension: a Battery subclass whose overrides delegate to the base class."""
+
+    def charge(self, pilot, voltage, period):
+        return super().charge(pilot, voltage, period)
+
+    def reset(self, init_charge=None):
+        return super().reset(init_charge)
+
+
+class LoggingLinear2StageBattery(sut.Linear2StageBattery):
+    """User extension: a Linear2StageBattery subclass whose overrides delegate to the base class."""
+
+    def charge(self, pilot, voltage, period):
+        return super().charge(pilot, voltage, period)
+
+    def reset(self, init_charge=None):
+        return super().reset(init_charge)
+
+
 def build_battery(b):
     if b["type"] == "Battery":
-        return sut.Battery(b["capacity"], b["init"], b["max_power"])
-    return sut.Linear2StageBattery(b["capacity"], b["init"], b["max_power"], noise_level=b.get("noise", 0),
+        return (LoggingBattery if b.get("sub") else sut.Battery)(b["capacity"], b["init"], b["max_power"])
+    return (LoggingLinear2StageBattery if b.get("sub") else sut.Linear2StageBattery)(b["capacity"], b["init"], b["max_power"], noise_level=b.get("noise", 0),
                                    transition_soc=b.get("transition_soc", 0.8),
                                    charge_calculation=b.get("calc", "continuous"))
 
